@@ -344,7 +344,7 @@ def coq_case(case, obs):
 
 HEADER = ("From Coq Require Import QArith Qabs List Bool.\n"
           "From WG Require Import Model.SolveWall.\n"
-          "From GenC01 Require Import EomFacts Props_C01.\n"
+          "From GenC01 Require Import EomFacts.\n"
           "Import ListNotations.\nLocal Open Scope Q_scope.\n")
 
 
@@ -917,7 +917,7 @@ def run(ctx):
         ctx.broken.append("translator: %s" % e)
         gen_ok = False
     proved = gen_ok and ctx.prove(extra=["EomFacts.v"])
-    props_built = gen_ok and os.path.exists(os.path.join(ctx.bdir, "Props_C01.vo"))
+    props_built = gen_ok and os.path.exists(os.path.join(ctx.bdir, "EomFacts.vo"))
     ctx.trusted += ["tools/gen_eom_facts.py (AST fact extractor: path enumeration of "
                     "solveWall, provenance of manager objects)",
                     "harness stubs: Hydrodynamics/Thermodynamics stand-ins and the synthetic "
